@@ -8,6 +8,12 @@ ENGINES = [
 ]
 NOT_APPLICABLE = {}
 CLAIMED = {
+ "C13": {
+  "engine": "tlc + csl-conform (spec/trace/Trace_SendAll.tla, spec/lib/LedgerRules.tla, CBOR.tla, Value.tla; harness sendall driver)",
+  "technique": "L0 action CreateSendAll in the trace spec: TLC parses every returned transaction from its bytes and checks that the inputs of the batch partition the supplied outpoints, that every output pays the target address, and per transaction Balanced (values from the scenario environment), fee >= a*len+b of the really signed bytes (signer set recomputed from the spent outputs), size limits and min-ADA of every output",
+  "text": "Trace validation of about 1200 (quick) / 12000 random UTxO sets up to 60 entries with many policies, long names, quantities whose sums cross CBOR widths, dust, Byron/Shelley owners and parameter sets that force splitting.",
+  "note": "Trusted: TLC, CBOR.tla, LedgerRules.tla, hashlib-checked key table, harness logging (--selftest adds an unspent UTxO to every environment). No TLA+ model of the greedy categorizer. Known finding: with coins_per_utxo_byte < 100 some transactions lose 44 lovelace / are one byte short of the minimum fee (known_findings.json).",
+ },
  "C11": {
   "engine": "tlc + csl-conform (spec/sys/Address.tla, spec/mc/MC_Address.tla, spec/trace/Trace_Address.tla; zlib.crc32 digest oracle)",
   "technique": "the address format transcribed as a total classification function in TLA+ (header bits, exact lengths, pointer variable-length naturals over BigNat, Byron CBOR envelope parsed by CBOR.tla); TLC checks totality and ToBytes.Classify = id on the model and enumerates the structural lattice; every case is handed to the strict parser and, embedded in a legacy and a map-form output, to the lenient path of the real code; TLC compares kind, network, credentials, pointer triple, bytes and round trips with its own classification; Byron checksums are evaluated by zlib on the spec-extracted payload",
